@@ -18,7 +18,7 @@ PKG = 'onsager'
 # other check reads the tree as written, which is what its rules and its confirmed instance counts refer to.  Feeding a
 # rule a tree form it was not written for makes its anchors vanish (false alarms / floors not met), so the form is part of
 # the rule, declared here per property, and never a global switch.
-NORMAL_FORM_PROPS = frozenset(['C01', 'C02', 'C04', 'C06', 'C11', 'C12', 'C15', 'C24', 'C28'])
+NORMAL_FORM_PROPS = frozenset(['C01', 'C02', 'C04', 'C06', 'C11', 'C12', 'C15', 'C24', 'C27', 'C28'])
 FORMS = ('raw', 'normal')
 _NORM_CACHE = {}
 
